@@ -25,6 +25,10 @@ TEXT = {
          "For every message up to the stated depth: pos() at every symbol boundary (also while words are held back), all ordered seek pairs with a decode in between, decode to the end/bottom, over owned/borrowed/consuming/reversed/temporary decoders; positions beyond the data must be refused and leave the decoder usable.", TRUST, "§3 C07"),
  "C08": ("twin execution at every node of the walks + explicit-state BFS of the bit-level coders",
          "8 inspection operations x {once, twice} on a clone at every node of the range and ANS walks (incl. inverted situation, empty coder, raw-binary loads, states with interior zero words); view == what finishing would return, full raw state unchanged, continued encoding identical to the untouched twin. Bit coders: observational oracle inside the C16 BFS.", TRUST, "§3 C08"),
+ "C09": ("exhaustive insertion of impossible symbols at every position of every short history on 4 coder families; fault enumeration over every sink capacity and every failing call index",
+         "(A) 9 model types x dense out-of-support candidates incl. s + k*2^ProbabilityBits and s + k*2^32; (B) all histories of length <= 5 (thorough 7) over 4 symbols x every insertion position x 7-8 impossible symbols on AnsCoder, RangeEncoder, ChainCoder and the bit coders with a Huffman codebook: ImpossibleSymbol, complete coder state unchanged, continued history round-trips; (C) ANS coder over a bounded Cursor sink of EVERY capacity 0..=needed+1 and over a callback sink failing at EVERY call index: backend error, coder bit-identical, earlier symbols decode, encoding continues after room is made, a failing get_compressed leaves the coder intact.", TRUST, "§3 C09"),
+ "C10": ("exhaustive input sweep in isolated child processes: all short word strings x 100 model programs x 7 stream decoders + chain coder; outcome classification",
+         "Every u8 string of length <= 2 (thorough 3) plus truncations/extensions of valid streams x all ordered pairs of 10 decoder models (lookup, lazily quantised, quantised Gaussian, uniform, hand-made partitions; precision changing between symbols) alternating over 6 symbols, on AnsCoder (from_binary / from_compressed), RangeDecoder and ChainCoder at 2-3 state widths; u16 strings over boundary words. No panic/abort/hang, only the documented errors, every symbol inside the support. Process isolation turns aborts and hangs into judged outcomes.", TRUST, "§3 C10"),
  "C11": ("exhaustive symbol-sequence DFS; every node decoded under a family of appended suffixes and as first of two back-to-back messages",
          "At every node of the range-coder walk (S = 2W, 4W, 8W) the sealed words are decoded with 8 adversarial suffixes of S/W+2 words and with a second message appended via with_backend; alphabets are iterated by size so that the rare multi-zero-word seals are reached (counter required non-zero).", TRUST, "§3 C11"),
  "C12": ("analytic bound and its inductive step evaluated at every node/edge of the exhaustive walks",
@@ -37,10 +41,14 @@ TEXT = {
          "All weight vectors of length <= 6-10 over small weight alphabets as u32/f64/f32, plus special vectors; prefix-freeness, Kraft equality, optimal cost (brute force over all full binary trees for n <= 6), exact tie-breaking, prefix == reversed suffix, decode, rejection of out-of-alphabet symbols, encoder/decoder agreement.", TRUST, "§3 C15"),
  "C16": ("explicit-state BFS of the real StackCoder to a fixed point; exhaustive bit strings on the queue coder; exhaustive Exp-Golomb values",
          "All reachable states of StackCoder<u8/u16/u32> with up to 13-18 content bits under {write 0/1, read, export->re-import, inspect}, canonical key = full Debug representation + reference content, until the frontier empties; every bit string through QueueEncoder/QueueDecoder; every u8 pair and u16 value (boundary values of u32/u64) through Exp-Golomb on both coders; symbol codes interleaved with raw bits.", TRUST, "§3 C16"),
+ "C18": ("size queries compared with the export at every node of the exhaustive walks; diagnostics vs textbook formulas on exhaustive small model spaces",
+         "(a) num_words/num_bits/is_empty/iter_compressed vs what exporting returns, and decoder exhaustion along the way (whole unread words => not exhausted; exact end => maybe exhausted), at every node of the range and ANS walks incl. raw-binary loads; (b) entropy, cross entropy and KL in both directions, floating-point symbol tables and probabilities for all 127 models at P=3 (contiguous and non-contiguous), P=4 models, full-precision and 24-bit models, uniform and quantised models x 5 reference distributions incl. zeros, in f64 and f32.", TRUST + " Relative tolerance 1e-9 (f64) / 1e-4 (f32).", "§3 C18"),
  "C19": ("exhaustive input sweep in isolated child processes over invalid and valid constructor inputs; outcome classification (Err / clean panic / valid model / invalid model / overflow / abort / hang)",
          "Every float table of length <= 2 (thorough 3) over 25 letters incl. -0.0, negative, NaN, +-inf entries x 7 normalization variants (none, exact, half, double, 0, NaN, negative); ALL u8 fixed-point tables of length <= 2 (thorough: 3) x infer_last x symbol lists of matching / shorter / longer length / with duplicates, at 5 precisions incl. PRECISION == Probability::BITS; u16 boundary tables; every support size 0..=2^P+2 for P <= 8 and sizes aliasing modulo 2^ProbabilityBits on 9 type combinations; uniform ranges incl. aliasing ones. Completeness: every table that denotes a valid model must be accepted (also with infer_last at full precision).", TRUST, "§3 C19"),
  "C17": ("explicit-state BFS over (buffer, position) with full dedup to a fixed point on 4 cursor kinds; exhaustive op sequences on Vec/SmallVec",
          "Every reachable (buffer contents, position) state with buffer length <= 5 (thorough 7): each op executed on Cursor<Vec>, Cursor<&mut [W]>, Cursor<&[W]>, Reverse<Cursor> and the reference; reported remaining/space_left compared with the number of operations that actually succeed; fused end; into_reversed as a bisimulation; views/clones; Vec/SmallVec/iterator/callback adapters.", TRUST, "§3 C17"),
+ "C20": ("hostile safe-API programs enumerated exhaustively in isolated child processes built with std's unsafe-precondition checks, overflow checks and debug assertions inside constriction; plus the C19 and C10 sweeps in classification mode",
+         "Every (buffer length <= 4, position, Cursor::buf_mut mutation, backend operation) combination; every user-written IterableEntropyModel table of <= 2 rows over boundary values (and truncated/overfull/non-monotone ones) through every conversion and then queried at every quantile; quantile_function at EVERY value of the probability type on 12 decoder models; AnsCoder::from_raw_parts from all 65536 head values; range coders from boundary raw parts; the complete C19 constructor sweep and C10 decoding sweep. Violation = abort (unsafe precondition violated, allocation failure), signal, hang, or an overflow panic raised inside the library; error values and other panics are fine.", TRUST + " UB verdicts are those of std's ub-checks on the executions enumerated (no ASan/Miri pass in the registered commands).", "§3 C20"),
 }
 
 CLAIMED = []  # filled below as modules land
